@@ -206,3 +206,17 @@ Example ex_idempotent :
   | Ok t1 => Some (J_eqb (j_res (table_sort Qmerge None t1)) (j_res (Ok t1)))
   | _ => None end = Some true.
 Proof. vm_compute. reflexivity. Qed.
+
+(* sort_individuals: the diploid pedigree of /verif/seeded/C07-1/demo.py (kid, mum, dad, gran
+   listed children first; two nodes per individual, so more nodes than individuals) *)
+Definition ex_pedigree : tables :=
+  mkTables 10
+    (flat_map (fun i => [mkNode 0 0 (-1) i []; mkNode 0 0 (-1) i []]) [0; 1; 2; 3])
+    [] [] [0] [] [] [] [] [0]
+    [mkInd 0 [] [1; 2] [107]; mkInd 0 [] [3; -1] [109]; mkInd 0 [] [-1; -1] [100]; mkInd 0 [] [-1; -1] [103]]
+    [] None.
+Example ex_sort_individuals :
+  option_map (fun t => (map i_md (t_inds t), map i_parents (t_inds t), map n_ind (t_nodes t)))
+             (match sort_individuals ex_pedigree with Ok t => Some t | _ => None end)
+  = Some ([[103]; [100]; [109]; [107]], [[-1; -1]; [-1; -1]; [0; -1]; [2; 1]], [3; 3; 2; 2; 1; 1; 0; 0]).
+Proof. vm_compute. reflexivity. Qed.
